@@ -81,7 +81,7 @@ def all_paths(ids, maxlen):
             yield list(p)
 
 
-ID_SETS = {"plain": ["s1", "s2", "s3"], "odd": ["1", "22", "3_x"]}
+ID_SETS = {"plain": ["s1", "s2", "s3"], "odd": ["s1.2", "c:5-9", "H#1#x"]}  # odd: valid GFA names with non-word characters
 
 
 def configs(tier):
